@@ -2,7 +2,7 @@
 
 stdin : {"cases": [case, ...]}
         case = {"shape": str, "x": bool, "entry": "parse_args|parse_object|parse_string|parse_env|parse_path",
-                "input": ..., "files": {relative name: text}, "dcf": text or null}
+                "input": ..., "files": {relative name: text}, "dcf": text or null, "stdin": "none" or absent}
 stdout: last line {"obs": [...]}; one observation per case:
         {"k": "ret"} | {"k": "exit", "code": c, "usage": bool, "frames": [...]} |
         {"k": "exc", "cls": "module.Qualname", "argerr": bool, "frames": [[module, qualname, lineno], ...] (jsonargparse
@@ -119,6 +119,9 @@ def build(shape, x, dcf_path):
         p.add_argument("--it", type=type_int_like)
         p.add_argument("--ch", choices=["x", "y"])
         p.add_argument("--m", type=int, nargs="+")
+        p.add_argument("--mc", nargs="+", choices=["x", "y"])
+        p.add_argument("--mq", type=int, nargs="?", const=3)
+        p.add_argument("--ms", nargs="*")
         p.add_argument("--flag", action="store_true")
         p.add_argument("--cnt", action="count")
         p.add_argument("--a", type=int, default=1)
@@ -174,6 +177,11 @@ def decode(v):
             return DC()
         if tag == "big":
             return 10 ** 400
+        if tag == "deep":
+            val = []
+            for _ in range(int(v["n"])):
+                val = [val]
+            return val
         raise ValueError("unknown tag %r" % tag)
     return v
 
@@ -240,6 +248,9 @@ def run_case(case, base):
     inp = case["input"]
     if case["entry"] == "parse_object":
         inp = decode(inp)
+    saved_stdin = sys.stdin
+    if case.get("stdin") == "none":
+        sys.stdin = None   # what CPython does when file descriptor 0 is closed at start-up
     signal.alarm(LIMIT)
     try:
         try:
@@ -276,6 +287,7 @@ def run_case(case, base):
                "frames": frames_of(e), "msg": str(e)[:160]}
     finally:
         signal.alarm(0)
+        sys.stdin = saved_stdin if saved_stdin is not None and not getattr(saved_stdin, "closed", False) else open(os.devnull)
         os.chdir(base)
         shutil.rmtree(work, ignore_errors=True)
     return obs
@@ -283,6 +295,10 @@ def run_case(case, base):
 
 def main():
     base = tempfile.mkdtemp(prefix="jv_c03_")
+    # an importable module whose import fails the way an optional-dependency guard does
+    with open(os.path.join(base, "c03_needs_extra.py"), "w") as f:
+        f.write("raise ImportError('c03_needs_extra requires the optional package `extra`')\n")
+    sys.path.insert(0, base)
     res = []
     try:
         for case in payload["cases"]:
